@@ -1,5 +1,6 @@
 import Pds.Proofs.KernelTie.Reservoir
 import Pds.Props.C05
+import Pds.Proofs.KernelTie.ReservoirAdd
 /-!
 # C05 — tie by translation: `ReservoirSampling::draw_gap`
 
@@ -25,5 +26,13 @@ theorem draw_gap_geometric {k seen : Nat} {v : ℝ} (hk : 0 < k) (hks : k ≤ se
   have hp1 : (k : ℝ) / ((seen + 1 : ℕ) : ℝ) < 1 := by
     rw [div_lt_one hs]; exact_mod_cast Nat.lt_succ_of_le hks
   exact Pds.Props.C05.gap_geometric_law ⟨by linarith [hv.2], by linarith [hv.1]⟩ ⟨hp0, hp1⟩ s
+
+/-- `ReservoirSampling::add` as translated (three phases, the order of the RNG requests, the slot writes)
+is the model's `add`, for every RNG interface and state -/
+theorem add_translated {R : Type} (I : Reservoir.RngI R) (s : Reservoir.St R) (x : Nat) (hk : s.k * 4 < 2 ^ 64) :
+    reservoir_add R I s.k s.rng s.res.toList s.i s.skipUntil x =
+      match Reservoir.add I s x with
+      | none => Flow.panic
+      | some s' => Flow.cont (s'.rng, s'.res.toList, s'.i, s'.skipUntil) := reservoir_add_eq I s x hk
 
 end Pds.Tie.C05
